@@ -81,6 +81,13 @@ Definition chk_mb (c : mb_case) : bool :=
   let '(o, b) := mb_run_chk (mb_ctor Cf Z (dedup Cf ceqb [] pts) ninit ad size 100 50) evs in
   b && list_eqb oeqb o obs.
 
+(* get_batch_configs, model-based phase: size, requested, exclusion list (match strings),
+   per greedy iteration the optimised candidates in call order with their results, the real batch *)
+Definition batch_case := (option nat * nat * list Z * list (list Cf * list (Cf * Cf)) * list Cf)%type.
+Definition chk_batch (c : batch_case) : bool :=
+  let '(size, n, e, its, obs) := c in
+  list_eqb ceqb (bo_batch Cf Z Z.eqb msf size n e (map (fun it => (fst it, tbl_opt (snd it))) its)) obs.
+
 (* _postprocess_config: keys = Z, values = Z ids, domain = Z id, cast = table *)
 Definition pp_case := (list (Z * entry Z Z) * list (Z * Z) * list (Z * Z * Z) * list (Z * (bool * Z)))%type.
 Fixpoint cast_tbl (t : list (Z * Z * Z)) (d v : Z) : Z :=
@@ -841,6 +848,112 @@ def run_mb_case(ctx, case):
 
 
 # --------------------------------------------------------------------------
+# 4b. GPFIFOSearcher.get_batch_configs on small finite spaces (greedy batch selection)
+# --------------------------------------------------------------------------
+def enum_values(dom):
+    from syne_tune.config_space import Categorical, FiniteRange, Integer
+    if isinstance(dom, Categorical):
+        return list(dict.fromkeys(dom.categories))
+    if isinstance(dom, FiniteRange):
+        return list(dict.fromkeys(dom.values))
+    if isinstance(dom, Integer):
+        return list(range(dom.lower, dom.upper + 1))
+    raise AssertionError(dom)
+
+
+def gen_batch_case(rng):
+    import itertools
+    while True:
+        doms = []
+        for _ in range(rng.randint(1, 2)):
+            doms.append(rng.choice([["randint", 0, rng.randint(1, 3)], ["choice", rng.choice([["a", "b"], ["x", "y", "z"]])],
+                                    ["ordinal", [1, 2, 4], rng.choice([None, "equal"])],
+                                    ["finrange", 0.0, 1.0, rng.randint(2, 3), False], ["randint", 5, 5]]))
+        spec = [["h%d" % i, "dom", d] for i, d in enumerate(doms)]
+        space = build_space(spec)
+        total = 1
+        for d in space.values():
+            total *= len(enum_values(d))
+        if 3 <= total <= 12:
+            break
+    left = rng.randint(0, min(3, total - 2))
+    order = list(range(total))
+    rng.shuffle(order)
+    # what happened to the configurations tried before: observed (at least two), failed or still pending
+    fates = ["obs", "obs"] + [rng.choice(["obs", "obs", "obs", "failed", "pending"]) for _ in range(total)]
+    return dict(kind="batch", spec=spec, order=order, left=left, fates=fates[:total - left], batch_size=rng.randint(2, 4),
+                seed=rng.randrange(10 ** 6), num_init_random=rng.choice([0, 1, 2]), metrics=[round(rng.uniform(0, 1), 3) for _ in range(total)])
+
+
+def run_batch_case(ctx, case):
+    import itertools
+    from syne_tune.optimizer.schedulers.searchers import GPFIFOSearcher
+    from syne_tune.optimizer.schedulers.searchers.utils.hp_ranges import HyperparameterRanges
+    from syne_tune.optimizer.schedulers.searchers.bayesopt.tuning_algorithms.bo_algorithm_components import (
+        LBFGSOptimizeAcquisition)
+    from syne_tune.config_space import config_space_size
+    quiet()
+    space = build_space(case["spec"])
+    enc = Enc(space)
+    keys = list(space)
+    allc = [dict(zip(keys, vals)) for vals in itertools.product(*[enum_values(space[k]) for k in keys])]
+    allc = [allc[i] for i in case["order"]]
+    tried = allc[:len(allc) - case["left"]]
+    pairs, marks = [], []
+
+    class RecordingOptimizer(LBFGSOptimizeAcquisition):
+        def optimize(self, candidate, predictor=None):
+            out = super().optimize(candidate, predictor=predictor)
+            pairs.append((dict(candidate), dict(out)))
+            return out
+    orig_bulk = HyperparameterRanges.random_configs
+
+    def bulk(hp_self, random_state, num_configs):
+        marks.append(len(pairs))        # a new greedy iteration generates its candidates
+        return orig_bulk(hp_self, random_state, num_configs)
+    with contextlib.redirect_stdout(io.StringIO()):
+        s = GPFIFOSearcher(space, metric="m", points_to_evaluate=[], random_seed=case["seed"],
+                           num_init_random=case["num_init_random"], local_minimizer_class=RecordingOptimizer, **FAST_GP)
+        for t, (c, fate) in enumerate(zip(tried, case["fates"])):
+            s.register_pending(trial_id=str(t), config=c)
+            if fate == "obs":
+                s.on_trial_result(str(t), c, result={"m": case["metrics"][t]}, update=True)
+            elif fate == "failed":
+                s.evaluation_failed(str(t))
+        with mock.patch.object(HyperparameterRanges, "random_configs", bulk):
+            batch = s.get_batch_configs(batch_size=case["batch_size"])
+    # ---- independent checker ----
+    viol = None
+    seen = [hp_tuple(space, c) for c in tried]
+    for c in batch:
+        bad = check_suggestion(space, as_scheduler_would(space, c))
+        t = hp_tuple(space, c)
+        if bad and viol is None:
+            viol = bad
+        if t in seen and viol is None:
+            viol = ("repeated_configuration_in_batch", "batch %s, tried before %s" % ([hp_tuple(space, x) for x in batch], seen[:len(tried)]))
+        seen.append(t)
+    want = min(case["batch_size"], case["left"])
+    if viol is None and len(batch) != want:
+        viol = ("batch_size_differs_from_remaining" if len(batch) < want else "batch_larger_than_remaining_space",
+                "batch of %d for request %d with %d configurations left" % (len(batch), case["batch_size"], case["left"]))
+    # ---- model term: iterations = segments of the optimiser calls between candidate generations ----
+    cuts = sorted(set(marks + [len(pairs)]))
+    segs = [pairs[a:b] for a, b in zip([0] + cuts, cuts) if b > a]
+    its = lst(["(%s, %s)" % (lst([enc(o) for o, _ in seg]), lst(["(%s, %s)" % (enc(o), enc(p)) for o, p in seg])) for seg in segs])
+    mids = []
+    for c in tried:
+        enc(c)
+        m = enc.mids[enc.hp.config_to_match_string(c)]
+        if m not in mids:
+            mids.append(m)
+    size = config_space_size(space)
+    term = "(%s, %s, %s, %s, %s)" % (optlit(size, natlit), natlit(case["batch_size"]), lst([str(m) for m in mids]), its,
+                                     lst([enc(c) for c in batch]))
+    return term, viol, len(batch)
+
+
+# --------------------------------------------------------------------------
 # 5. _postprocess_config unit cases
 # --------------------------------------------------------------------------
 def run_pp_case(ctx, rng):
@@ -941,8 +1054,10 @@ def run(ctx, replay=None):
             gp = "bayesopt" in kind or "hypertune" in kind
             cases += [gen_sched_case(rng, kind, True) for _ in range(ctx.n(8 if gp else 30, 30 if gp else 250))]
         cases += [gen_mb_case(rng, True) for _ in range(ctx.n(24, 100))]
+        cases += [gen_batch_case(rng) for _ in range(ctx.n(40, 300))]
         cases += [dict(kind="pp", seed=rng.randrange(10 ** 9)) for _ in range(ctx.n(150, 1500))]
     rs_terms, rs_meta, gs_terms, gs_meta, prod_terms, prod_meta, mb_terms, mb_meta, pp_terms, pp_meta = ([] for _ in range(10))
+    bt_terms, bt_meta = [], []
     for case in cases:
         k = case["kind"]
         for pt in (case.get("pts") or []):
@@ -988,6 +1103,14 @@ def run(ctx, replay=None):
                 report(ctx, viol, case, "GPFIFOSearcher")
             mb_terms.append(term)
             mb_meta.append(case)
+        elif k == "batch":
+            term, viol, nb = run_batch_case(ctx, case)
+            ctx.count(case, nontrivial=case["left"] < case["batch_size"] or nb >= 2)
+            ctx.h("batch_left_vs_requested", "left=%d req=%d" % (case["left"], case["batch_size"]))
+            if viol:
+                report(ctx, viol, case, "GPFIFOSearcher.get_batch_configs")
+            bt_terms.append(term)
+            bt_meta.append(case)
         elif k == "pp":
             import random as _r
             term, meta = run_pp_case(ctx, _r.Random(case["seed"]))
@@ -997,12 +1120,13 @@ def run(ctx, replay=None):
     ctx.traces_validated = len(cases)
     for tag, fn, terms, meta, shard in (("rs", "chk_rs", rs_terms, rs_meta, 40), ("gs", "chk_gs", gs_terms, gs_meta, 40),
                                         ("prod", "chk_prod", prod_terms, prod_meta, 60),
-                                        ("mb", "chk_mb", mb_terms, mb_meta, 10), ("pp", "chk_pp", pp_terms, pp_meta, 80)):
+                                        ("mb", "chk_mb", mb_terms, mb_meta, 10), ("batch", "chk_batch", bt_terms, bt_meta, 20),
+                                        ("pp", "chk_pp", pp_terms, pp_meta, 80)):
         if not terms:
             continue
         if meta:
             ctx.sample(dict(correspondence=fn, case=meta[0]))
-        ty = dict(rs="rs_case", gs="gs_case", prod="(list (list Z) * list (list Z))%type", mb="mb_case", pp="pp_case")[tag]
+        ty = dict(rs="rs_case", gs="gs_case", prod="(list (list Z) * list (list Z))%type", mb="mb_case", pp="pp_case", batch="batch_case")[tag]
         terms = ["(%s : %s)" % (t, ty) for t in terms]
         for i in ctx.coq_bad_cases(tag, IMPORTS, PRELUDE, fn, terms, shard=shard):
             ctx.violation("correspondence", "model (%s) and implementation differ" % fn, case=meta[i],
